@@ -1,3 +1,4 @@
+import Props.C17Logic
 import Proofs.EngineStruct
 import Proofs.EngineStack
 import SynapModel.Api
